@@ -25,6 +25,9 @@ and `internal/modify/dkim/keys.go` `loadOrGenerateKey`, `generateAndWrite`, `wri
   finds the key and returns it; nothing is written (in particular no record: the only caller of
   `writeDNSRecord` is `generateAndWrite`, which passes the `k=` name of the key it has just made).
 
+* (round 9) `selectKey`: which key signs a message and which domain the signature names (`d=`), incl.
+  the `sign_subdomains` rule — see the section at the end.
+
 Not modelled: permissions, I/O errors, `rsa4096` vs. `rsa2048` (both are `k=rsa`), malformed keys.
 -/
 namespace MaddyVerif.DkimKeys
@@ -153,5 +156,105 @@ def step (s : FS × Nat) : Event → FS × Nat
 
 /-- the directory (and the number of key pairs made so far) after a history of events -/
 def history (es : List Event) (s : FS × Nat) : FS × Nat := es.foldl step s
+
+
+/-! ## (round 9) which key signs a message, and in whose name: `RewriteBody` up to `dkim.SignOptions`
+
+Mirrors the first half of `state.RewriteBody`: `address.Split` of the envelope sender, `domains[0]`
+for the null return path and `postmaster`, the `sign_subdomains` rule (a sender domain that ends,
+octet for octet, in `"." + domains[0]` is replaced by `domains[0]` AS CONFIGURED), `dns.ForLookup`,
+the look-up in `signers`, and the conversion of domain and selector with `idna.ToASCII` for a
+message without SMTPUTF8.  `d=` is the domain so obtained, `i=` is `"@"` + that domain, `s=` the
+selector.  `dns.ForLookup` and `idna.ToASCII` are oracles (`none` = the Go function returns an
+error); `domains[0]` of an empty list is the explicit outcome `panic` (`Init` refuses an empty list). -/
+
+/-- what `RewriteBody` gets out of the envelope sender -/
+inductive From
+  | err               -- `address.Split` fails: `RewriteBody` returns that error
+  | none              -- null return path / `postmaster`: no domain
+  | dom (d : Bytes)   -- the domain as spelled in the envelope
+deriving DecidableEq, Repr
+
+structure Oracle where
+  norm : Bytes → Option Bytes    -- `dns.ForLookup`
+  ascii : Bytes → Option Bytes   -- `idna.ToASCII`
+
+/-- why a message is left unsigned (`RewriteBody` returns nil without adding a field) -/
+inductive Why
+  | normErr            -- `dns.ForLookup` fails on the sender domain
+  | noKey              -- no signer under the normal form
+  | domainNotASCII     -- non-EAI message, `idna.ToASCII(domain)` fails
+  | selectorNotASCII   -- non-EAI message, `idna.ToASCII(selector)` fails
+deriving DecidableEq, Repr
+
+inductive Sel
+  | splitErr
+  | panic
+  | unsigned (w : Why)
+  | signed (d s : Bytes) (id : Nat) (a : Algo)   -- `d=`, `s=`, the key pair that signs
+deriving DecidableEq, Repr
+
+/-- the `sign_subdomains` block; `none` = `domains[0]` of an empty list -/
+def subRule (sub : Bool) (doms : List Bytes) (domain : Bytes) : Option Bytes :=
+  if sub then
+    match doms with
+    | [] => none
+    | top :: _ => some (if (46 :: top).isSuffixOf domain then top else domain)
+  else some domain
+
+/-- from `dns.ForLookup(domain)` to the `SignOptions` -/
+def finish (O : Oracle) (sg : Signers) (sel : Bytes) (utf8 : Bool) (domain : Bytes) : Sel :=
+  match O.norm domain with
+  | none => .unsigned .normErr
+  | some nd =>
+    match sg.lookup nd with
+    | none => .unsigned .noKey
+    | some (id, a) =>
+      if utf8 then .signed domain sel id a
+      else
+        match O.ascii domain with
+        | none => .unsigned .domainNotASCII
+        | some ad =>
+          match O.ascii sel with
+          | none => .unsigned .selectorNotASCII
+          | some as => .signed ad as id a
+
+def selectKey (O : Oracle) (doms : List Bytes) (sub : Bool) (sg : Signers) (sel : Bytes) (utf8 : Bool)
+    (f : From) : Sel :=
+  match f with
+  | .err => .splitErr
+  | .none =>
+    match doms with
+    | [] => .panic
+    | d0 :: _ =>
+      match subRule sub doms d0 with
+      | none => .panic
+      | some d => finish O sg sel utf8 d
+  | .dom d =>
+    match subRule sub doms d with
+    | none => .panic
+    | some d' => finish O sg sel utf8 d'
+
+/-- what the seeded change C08-14 does: when no key is found under the normal form and
+`sign_subdomains` is on, the key of a configured domain of which the NORMAL FORM of the sender
+domain is a subdomain is taken — `d=` stays the sender domain -/
+def finishC0814 (O : Oracle) (sub : Bool) (sg : Signers) (sel : Bytes) (utf8 : Bool) (domain : Bytes) : Sel :=
+  match O.norm domain with
+  | none => .unsigned .normErr
+  | some nd =>
+    let k := match sg.lookup nd with
+      | some k => some k
+      | none => if sub then (sg.find? (fun e => (46 :: e.1).isSuffixOf nd)).map (·.2) else none
+    match k with
+    | none => .unsigned .noKey
+    | some (id, a) =>
+      if utf8 then .signed domain sel id a
+      else
+        match O.ascii domain with
+        | none => .unsigned .domainNotASCII
+        | some ad =>
+          match O.ascii sel with
+          | none => .unsigned .selectorNotASCII
+          | some as => .signed ad as id a
 
 end MaddyVerif.DkimKeys
